@@ -45,4 +45,17 @@ def showDecode (d : List Nat) : String :=
     s!"SCT={showOpt (fun (p : Nat × Nat) => s!"{p.1}:{p.2}") sct} FTI={ftiS} " ++
     s!"PID={showOpt (fun (p : Nat × Nat × Option Nat) => s!"{p.1},{p.2.1},{showOpt toString p.2.2}") pid}"
 
+/-- re-serialise the LCT header of datagram `d` with other width flags `(c, s, o, h)`, everything else
+    (values, flags, extensions, the bytes after the header) unchanged; `none` if `d` does not decode or the
+    values do not fit the requested widths (driver op `rewidth`) -/
+def rewidth (d : List Nat) (c s o h : Nat) : Option (List Nat) :=
+  match decodeLct d with
+  | none => none
+  | some (f, hlen) =>
+    let g : LctFields := { f with c := c, s := s, o := o, h := h }
+    if c < 4 ∧ s < 2 ∧ o < 4 ∧ h < 2 ∧ g.cci < 2 ^ g.cciBits ∧ g.tsi < 2 ^ g.tsiBits ∧ g.toi < 2 ^ g.toiBits
+        ∧ g.hdrLen ≤ 255 then
+      some (g.encode ++ d.drop hlen)
+    else none
+
 end Flute.Spec.Wire
